@@ -21,13 +21,15 @@ func TestMain(m *testing.M) { ev.Main(m, "C10") }
 type Step struct {
 	Node    int    `json:"node"` // 0 = A, 1 = B
 	Op      dst.Op `json:"op"`
-	Deliver bool   `json:"deliver"` // the gossip of this operation reaches the other node
+	Deliver bool   `json:"deliver"`          // the gossip of this operation reaches the other node
+	GapNs   int64  `json:"gap_ns,omitempty"` // time that passes before this operation (default 10 ns)
 }
 
 type Case struct {
-	Steps    []Step `json:"steps"`
-	FreshB   bool   `json:"fresh_b"`  // B is a brand-new node (its steps are skipped)
-	Exchange string `json:"exchange"` // a2b | b2a | ab | ba
+	Steps               []Step `json:"steps"`
+	GapBeforeExchangeNs int64  `json:"gap_before_exchange_ns,omitempty"`
+	FreshB              bool   `json:"fresh_b"`  // B is a brand-new node (its steps are skipped)
+	Exchange            string `json:"exchange"` // a2b | b2a | ab | ba
 }
 
 func run(c Case) (msg string, nontrivial bool) {
@@ -46,7 +48,11 @@ func run(c Case) (msg string, nontrivial bool) {
 		if c.FreshB && s.Node == 1 {
 			continue
 		}
-		clock += 10
+		if s.GapNs > 0 {
+			clock += s.GapNs
+		} else {
+			clock += 10
+		}
 		dst.SetNow(clock)
 		dst.Apply(nodes[s.Node], s.Op)
 		for _, m := range nodes[s.Node].Drain() {
@@ -74,6 +80,9 @@ func run(c Case) (msg string, nontrivial bool) {
 			}
 		}
 	}
+	// the exchange may happen long after the last change (a partition that lasted a day)
+	clock += c.GapBeforeExchangeNs
+	dst.SetNow(clock)
 	va := tabs[0].View()
 	nontrivial = lostRemovalOnA && (len(va.Sessions) >= 2 || len(va.Subscriptions) >= 2 || len(va.Retained) >= 2)
 	push := func(from, to int) string {
@@ -171,6 +180,10 @@ var kinds = ev.Kinds{"snapshot-exchange": func(t ev.TB, raw json.RawMessage) {
 func TestReplayFile(t *testing.T) { ev.ReplayFile(t, kinds) }
 func TestRegress(t *testing.T)    { ev.Regress(t, kinds, "testdata/regress") }
 
+// time between operations: nanoseconds to more than a day (removals must stay in the snapshot
+// however old they are: nothing ever tells the sender that every peer has seen them)
+var gaps = []int64{0, 0, 0, 1e9, 3600e9, 9 * 3600e9, 30 * 3600e9}
+
 func TestRandom(t *testing.T) {
 	rapid.Check(t, func(t *rapid.T) {
 		c := Case{
@@ -191,8 +204,10 @@ func TestRandom(t *testing.T) {
 				Node:    node,
 				Op:      dst.GenOp(t, 3, 4, 4, []uint64{1, 2}, true),
 				Deliver: rapid.IntRange(0, 3).Draw(t, "deliver") >= lossy,
+				GapNs:   rapid.SampledFrom(gaps).Draw(t, "gap"),
 			})
 		}
+		c.GapBeforeExchangeNs = rapid.SampledFrom(gaps).Draw(t, "gapBeforeExchange")
 		check(t, c)
 	})
 }
